@@ -412,9 +412,15 @@ def gen_type(r, hier, depth):
   if x < 0.24:
     return ("union", tuple(sub() for _ in range(r.choice([2, 2, 3]))))
   if x < 0.56:
-    return ("cls", r.choice(UNARY_GENERIC), (sub(),))
+    h = r.choice(UNARY_GENERIC)
+    if h == "Collection" and r.random() < 0.6:
+      h = "Sequence"
+    return ("cls", h, (sub(),))
   if x < 0.68:
-    return ("cls", r.choice(BINARY_GENERIC), (sub(), sub()))
+    h = r.choice(BINARY_GENERIC)
+    if h == "MutableMapping" and r.random() < 0.7:
+      h = "Mapping"
+    return ("cls", h, (sub(), sub()))
   if x < 0.80:
     return ("ftuple", tuple(sub() for _ in range(r.choice([0, 1, 2, 2, 3]))))
   if x < 0.92:
@@ -574,20 +580,23 @@ SITES = ("arg", "ret", "assign")
 SITE_ERROR = {"arg": "wrong-arg-types", "ret": "bad-return-type", "assign": "annotation-type-mismatch"}
 
 
-def build_module(hier, pairs):
+def build_module(hier, pairs, sites=SITES):
   """pairs: list of (ty, val).  Returns (source, {line: (pair_index, site)}).  One site per line."""
   lines = ["from typing import " + TYPING_IMPORTS]
   lines += hier.analysed_source().rstrip("\n").split("\n")
   where = {}
   for i, (t, v) in enumerate(pairs):
     ts, vs = render_ty(t), render_val(v)
-    lines.append("def f%d(x: %s): ..." % (i, ts))
-    lines.append("f%d(%s)" % (i, vs))
-    where[len(lines)] = (i, "arg")
-    lines.append("def g%d() -> %s: return %s" % (i, ts, vs))
-    where[len(lines)] = (i, "ret")
-    lines.append("x%d: %s = %s" % (i, ts, vs))
-    where[len(lines)] = (i, "assign")
+    if "arg" in sites:
+      lines.append("def f%d(x: %s): ..." % (i, ts))
+      lines.append("f%d(%s)" % (i, vs))
+      where[len(lines)] = (i, "arg")
+    if "ret" in sites:
+      lines.append("def g%d() -> %s: return %s" % (i, ts, vs))
+      where[len(lines)] = (i, "ret")
+    if "assign" in sites:
+      lines.append("x%d: %s = %s" % (i, ts, vs))
+      where[len(lines)] = (i, "assign")
   return "\n".join(lines) + "\n", where
 
 
@@ -599,11 +608,11 @@ def run_pytype(src):
   return [(e.name, e.line, e.message) for e in ret.context.errorlog]
 
 
-def analyse_pairs(hier, pairs):
+def analyse_pairs(hier, pairs, sites=SITES):
   """Runs one module.  Returns ({(i, site): bool error}, unexpected: list of error tuples)."""
-  src, where = build_module(hier, pairs)
+  src, where = build_module(hier, pairs, sites)
   errs = run_pytype(src)
-  res = {(i, s): False for i in range(len(pairs)) for s in SITES}
+  res = {(i, s): False for i in range(len(pairs)) for s in sites}
   unexpected = []
   for name, line, msg in errs:
     if line in where and name == SITE_ERROR[where[line][1]]:
@@ -611,3 +620,357 @@ def analyse_pairs(hier, pairs):
     else:
       unexpected.append((name, line, msg.split("\n")[0]))
   return res, unexpected
+
+
+def analyse_pairs_robust(hier, pairs):
+  """Like analyse_pairs, but if pytype itself raises, isolates the crashing (pair, site): the verdict of such a
+  site is the string "crash:<ExceptionType>"."""
+  try:
+    return analyse_pairs(hier, pairs)
+  except Exception as e:   # pylint: disable=broad-except
+    if "typeshed" in str(e):
+      raise
+  res, unexpected = {}, []
+  suspects = [i for i, (t, _) in enumerate(pairs) if unsupported_heads(t)]
+  rest = [i for i in range(len(pairs)) if i not in suspects]
+  def single(i):
+    for s in SITES:
+      try:
+        r1, u1 = analyse_pairs(hier, [pairs[i]], (s,))
+        res[(i, s)] = r1[(0, s)]
+        unexpected.extend(u1)
+      except Exception as e:   # pylint: disable=broad-except
+        res[(i, s)] = "crash:" + type(e).__name__
+  for i in suspects:
+    single(i)
+  try:
+    r2, u2 = analyse_pairs(hier, [pairs[i] for i in rest])
+    for (j, s), val in r2.items():
+      res[(rest[j], s)] = val
+    unexpected.extend(u2)
+  except Exception:   # pylint: disable=broad-except
+    for i in rest:
+      single(i)
+  return res, unexpected
+
+
+# ------------------------------------------------------------------------------------------------
+# rendering to Coq (coq/Match/Model.v)
+
+_COQ_B = {"int": "B_int", "float": "B_float", "complex": "B_complex", "bool": "B_bool", "str": "B_str",
+          "bytes": "B_bytes", "bytearray": "B_bytearray", "none": "B_NoneType", "object": "B_object",
+          "list": "B_list", "tuple": "B_tuple", "set": "B_set", "frozenset": "B_frozenset", "dict": "B_dict",
+          "type": "B_type", "Sequence": "B_t_Sequence", "MutableSequence": "B_t_MutableSequence",
+          "Iterable": "B_t_Iterable", "Collection": "B_t_Collection", "Container": "B_t_Container",
+          "Mapping": "B_t_Mapping", "MutableMapping": "B_t_MutableMapping", "AbstractSet": "B_t_AbstractSet",
+          "MutableSet": "B_t_MutableSet", "Sized": "B_t_Sized", "Callable": "B_t_Callable",
+          "Hashable": "B_t_Hashable", "Reversible": "B_t_Reversible", "Iterator": "B_t_Iterator"}
+_COQ_S = {"int": "SInt", "bool": "SBool", "float": "SFloat", "complex": "SComplex", "str": "SStr",
+          "bytes": "SBytes", "none": "SNone", "bytearray": "SBytearray"}
+_COQ_K = {"list": "KList", "set": "KSet", "frozenset": "KFrozenset", "tupleof": "KTupleOf"}
+
+
+def user_ids(hier):
+  ids = {}
+  for n in hier.class_names() + hier.proto_names():
+    ids[n] = len(ids)
+  return ids
+
+
+def coq_cid(name, ids):
+  if name in ids:
+    return "CU %d" % ids[name]
+  return "CB " + _COQ_B[name]
+
+
+def _lst(xs):
+  return "[" + "; ".join(xs) + "]"
+
+
+def coq_ty(t, ids):
+  k = t[0]
+  if k == "any":
+    return "TAny"
+  if k == "union":
+    return "TUnion " + _lst(coq_ty(o, ids) for o in t[1])
+  if k == "cls":
+    return "TCls (%s) %s" % (coq_cid(t[1], ids), _lst(coq_ty(a, ids) for a in t[2]))
+  if k == "ftuple":
+    return "TTuple " + _lst(coq_ty(a, ids) for a in t[1])
+  if k == "callable":
+    if t[1] is None:
+      return "TCallableAny (%s)" % coq_ty(t[2], ids)
+    return "TCallable %s (%s)" % (_lst(coq_ty(a, ids) for a in t[1]), coq_ty(t[2], ids))
+  if k == "type":
+    return "TCls (CB B_type) [%s]" % coq_ty(t[1], ids)
+  raise ValueError(t)
+
+
+def coq_val(v, ids):
+  k = v[0]
+  if k in _COQ_S:
+    return "VScalar " + _COQ_S[k]
+  if k in _COQ_K:
+    return "VColl %s %s" % (_COQ_K[k], _lst(coq_val(e, ids) for e in v[1]))
+  if k == "tuple":
+    return "VTuple " + _lst(coq_val(e, ids) for e in v[1])
+  if k == "dict":
+    return "VDict %s %s" % (_lst(coq_val(a, ids) for a, _ in v[1]), _lst(coq_val(b, ids) for _, b in v[1]))
+  if k == "inst":
+    return "VInst %d" % ids[v[1]]
+  if k == "class":
+    return "VClass (%s)" % coq_cid(v[1], ids)
+  if k == "func":
+    return "VFunc %d %d %s" % (v[1], v[2], "true" if v[3] else "false")
+  raise ValueError(v)
+
+
+def coq_utable(hier):
+  ids = user_ids(hier)
+  mid = {m: i for i, m in enumerate(hier.METHODS)}
+  rows = []
+  for n, _, ms in hier.classes:
+    rows.append("{| u_mro := %s; u_own := %s; u_pbase := false; u_pattrs := [] |}" % (
+        _lst(str(ids[k]) for k in hier.mro[n]), _lst(str(mid[m]) for m in ms)))
+  for n, ms in hier.protos:
+    rows.append("{| u_mro := [%d]; u_own := %s; u_pbase := true; u_pattrs := %s |}" % (
+        ids[n], _lst(str(mid[m]) for m in ms), _lst(str(mid[m]) for m in ms)))
+  return _lst(rows)
+
+
+# ------------------------------------------------------------------------------------------------
+# Classification of a disagreement between pytype and the run-time oracle: which of the NAMED deviations
+# (each one reproduced on the unchanged tree, see known_findings.json) explain pytype's verdict?
+# `inh_dev` is membership on the value AST with a set of deviation switches (it mirrors inhabitsF of Model.v);
+# with no switch it must agree with the run-time oracle `inhabits` (checked on every pair).
+
+LOCAL_DEVS = ["noniterable-str", "none-for-bool", "bytearray-for-bytes", "tuple-call-length",
+              "class-as-callable-args", "classobj-protocol-inherited-attr"]
+SITE_DEVS = ["union-split-views", "arg-any-view", "assign-none"]
+
+_RT_REACH = {}
+def _rt(c, hs, pm):
+  for h in hs:
+    _RT_REACH[(c, h)] = pm
+for _c in ("int", "bool", "float", "complex", "str", "bytes", "bytearray", "none"):
+  _rt(_c, [_c], [])
+_rt("bool", ["int", "float", "complex"], [])
+_rt("int", ["float", "complex"], [])
+_rt("float", ["complex"], [])
+_rt("list", ["list", "MutableSequence", "Sequence", "Iterable", "Container", "Collection"], [("idx", 0)])
+_rt("tuple", ["tuple", "Sequence", "Iterable", "Container", "Collection"], [("idx", 0)])
+_rt("set", ["set", "MutableSet", "AbstractSet", "Iterable", "Container", "Collection"], [("idx", 0)])
+_rt("frozenset", ["frozenset", "AbstractSet", "Iterable", "Container", "Collection"], [("idx", 0)])
+_rt("dict", ["dict", "Mapping", "MutableMapping"], [("idx", 0), ("idx", 1)])
+_rt("dict", ["Iterable", "Container", "Collection"], [("idx", 0)])
+_rt("str", ["Sequence", "Iterable", "Container", "Collection"], [("inst", "str")])
+_rt("bytes", ["Sequence", "Iterable", "Container", "Collection"], [("inst", "int")])
+_rt("bytearray", ["Sequence", "MutableSequence", "Iterable", "Container", "Collection"], [("inst", "int")])
+for _c in ("list", "tuple", "set", "frozenset", "dict", "str", "bytes", "bytearray"):
+  _rt(_c, ["Sized"], [])
+
+
+def _vcls(v):
+  k = v[0]
+  return {"tupleof": "tuple", "inst": None, "class": "type", "func": "Callable"}.get(k, k)
+
+
+def _vparam(v, i):
+  k = v[0]
+  if k in ("list", "set", "frozenset", "tupleof", "tuple"):
+    return list(v[1]) if i == 0 else []
+  if k == "dict":
+    return [a for a, _ in v[1]] if i == 0 else [b for _, b in v[1]] if i == 1 else []
+  return []
+
+
+def _rep(c, hier):
+  if c in hier.mro:
+    return ("inst", c)
+  if c in ("int", "bool", "float", "complex", "str", "bytes", "bytearray", "none"):
+    return (c,)
+  if c in ("list", "set", "frozenset"):
+    return (c, ())
+  if c == "tuple":
+    return ("tupleof", ())
+  if c == "dict":
+    return ("dict", ())
+  return None
+
+
+def _class_arity_ok(c, n, hier):
+  if c in hier.mro:
+    return n == 0
+  return n <= {"int": 2, "str": 3}.get(c, 1)
+
+
+def inh_dev(F, t, v, hier):
+  k = t[0]
+  if k == "any":
+    return True
+  if k == "union":
+    return any(inh_dev(F, o, v, hier) for o in t[1])
+  if k == "ftuple":
+    if v[0] == "tuple":
+      return len(v[1]) == len(t[1]) and all(inh_dev(F, a, e, hier) for e, a in zip(v[1], t[1]))
+    if v[0] == "tupleof":
+      if "tuple-call-length" in F:
+        return all(inh_dev(F, a, e, hier) for a in t[1] for e in v[1])
+      return len(v[1]) == len(t[1]) and all(inh_dev(F, a, e, hier) for e, a in zip(v[1], t[1]))
+    return False
+  if k == "callable":
+    if v[0] == "func":
+      if t[1] is None:
+        return True
+      n = len(t[1])
+      return v[1] <= n and (v[3] or n <= v[1] + v[2])
+    if v[0] == "class":
+      r = _rep(v[1], hier)
+      if r is None or not inh_dev(F, t[2], r, hier):
+        return False
+      return t[1] is None or "class-as-callable-args" in F or _class_arity_ok(v[1], len(t[1]), hier)
+    return False
+  if k == "type":
+    if v[0] != "class":
+      return False
+    r = _rep(v[1], hier)
+    return r is not None and inh_dev(F, t[1], r, hier)
+  name, args = t[1], t[2]
+  if name in hier.mro or hier.is_proto(name):
+    def structural(have):
+      return hier.is_proto(name) and set(hier.proto_attrs[name]) <= set(have)
+    if v[0] == "inst":
+      return name in hier.mro[v[1]] or structural(hier.attrs[v[1]])
+    if v[0] == "class" and v[1] in hier.mro:
+      return structural(hier.own[v[1]] if "classobj-protocol-inherited-attr" in F else hier.attrs[v[1]])
+    return structural([])
+  if name == "object":
+    return True
+  if v[0] == "class":
+    return name in ("type", "Callable")
+  if v[0] == "func":
+    return name == "Callable"
+  if v[0] == "inst":
+    return False
+  c = _vcls(v)
+  if ("noniterable-str" in F and c == "str" and name in ("Sequence", "Iterable", "Collection", "Container")
+      and args and args[0][0] == "cls" and args[0][1] == "str"):
+    return False
+  pm = _RT_REACH.get((c, name))
+  if pm is None:
+    if "none-for-bool" in F and c == "none" and name == "bool":
+      pm = []
+    elif "bytearray-for-bytes" in F and c == "bytearray" and name == "bytes":
+      pm = []
+    else:
+      return False
+  for a, p in zip(args, pm):
+    if p[0] == "idx":
+      if not all(inh_dev(F, a, e, hier) for e in _vparam(v, p[1])):
+        return False
+    elif p[0] == "inst":
+      if not inh_dev(F, a, _rep(p[1], hier), hier):
+        return False
+  return True
+
+
+def py_slices(v):
+  """Monomorphic slices (mirrors Model.v slices)."""
+  import itertools   # pylint: disable=import-outside-toplevel
+  k = v[0]
+  if k in ("list", "set", "frozenset", "tupleof"):
+    ss = [s for e in v[1] for s in py_slices(e)]
+    return [(k, (s,)) for s in ss] if ss else [(k, ())]
+  if k == "tuple":
+    return [("tuple", tuple(c)) for c in itertools.product(*[py_slices(e) for e in v[1]])]
+  if k == "dict":
+    ks = [s for a, _ in v[1] for s in py_slices(a)]
+    vs = [s for _, b in v[1] for s in py_slices(b)]
+    if not ks:
+      return [("dict", ())]
+    return [("dict", ((a, b),)) for a in ks for b in vs]
+  return [v]
+
+
+def n_slices(v):
+  k = v[0]
+  if k in ("list", "set", "frozenset", "tupleof"):
+    return max(1, sum(n_slices(e) for e in v[1]))
+  if k == "tuple":
+    n = 1
+    for e in v[1]:
+      n *= n_slices(e)
+    return n
+  if k == "dict":
+    return max(1, sum(n_slices(a) for a, _ in v[1])) * max(1, sum(n_slices(b) for _, b in v[1]))
+  return 1
+
+
+def predicted_error(F, t, v, site, hier):
+  """pytype's verdict at `site` if exactly the deviations in F were in force."""
+  if site == "assign" and "assign-none" in F and v == ("none",):
+    return False
+  if site == "arg" and "arg-any-view" in F:
+    return not any(inh_dev(F, t, s, hier) for s in py_slices(v))
+  if "union-split-views" in F:
+    return not all(inh_dev(F, t, s, hier) for s in py_slices(v))
+  return not inh_dev(F, t, v, hier)
+
+
+def explain(t, v, site, impl_err, hier, max_size=4):
+  """Smallest set of named deviations under which the model of the deviations predicts impl_err; None if none."""
+  import itertools   # pylint: disable=import-outside-toplevel
+  names = LOCAL_DEVS + SITE_DEVS
+  if n_slices(v) > 256:
+    return None
+  for size in range(0, max_size + 1):
+    for F in itertools.combinations(names, size):
+      if predicted_error(set(F), t, v, site, hier) == impl_err:
+        return list(F)
+  return None
+
+
+def noniter_abc(t):
+  """First ABC (alphabetically) occurring as ABC[str] in t, for the noniterable-str fingerprint family."""
+  found = set()
+  def walk(u):
+    k = u[0]
+    if k == "union":
+      for o in u[1]: walk(o)
+    elif k == "cls":
+      if u[1] in ("Sequence", "Iterable", "Collection", "Container") and u[2] and u[2][0][:2] == ("cls", "str"):
+        found.add(u[1])
+      for a in u[2]: walk(a)
+    elif k == "ftuple":
+      for a in u[1]: walk(a)
+    elif k == "callable":
+      for a in (u[1] or ()): walk(a)
+      walk(u[2])
+    elif k == "type":
+      walk(u[1])
+  walk(t)
+  return sorted(found)[0] if found else "?"
+
+
+UNSUPPORTED_HEADS = ("Collection", "MutableMapping")
+
+
+def unsupported_heads(t):
+  found = set()
+  def walk(u):
+    k = u[0]
+    if k == "union":
+      for o in u[1]: walk(o)
+    elif k == "cls":
+      if u[1] in UNSUPPORTED_HEADS:
+        found.add(u[1])
+      for a in u[2]: walk(a)
+    elif k == "ftuple":
+      for a in u[1]: walk(a)
+    elif k == "callable":
+      for a in (u[1] or ()): walk(a)
+      walk(u[2])
+    elif k == "type":
+      walk(u[1])
+  walk(t)
+  return sorted(found)
